@@ -768,12 +768,39 @@ func (cs *c07File) writeHistory() ([]byte, int64, error) {
 				return fail(err)
 			}
 		case "concurrent":
-			rg := w.BeginRowGroup()
-			if _, err := rg.WriteRows(c07MakeRows(cs, lo, hi)); err != nil {
-				return fail(err)
+			// `parts` row groups open at the same time (none larger than
+			// MaxRowsPerRowGroup: a concurrent row group refuses more), filled,
+			// then committed in order
+			var bounds []int
+			for k := 0; k <= parts; k++ {
+				bounds = append(bounds, lo+(hi-lo)*k/parts)
 			}
-			if _, err := rg.Commit(); err != nil {
-				return fail(err)
+			if cs.MaxRows > 0 {
+				bounds = bounds[:0]
+				for a := lo; a < hi; a += int(cs.MaxRows) {
+					bounds = append(bounds, a)
+				}
+				bounds = append(bounds, hi)
+			}
+			var rgs []*parquet.ConcurrentRowGroupWriter
+			for k := 0; k+1 < len(bounds); k++ {
+				rgs = append(rgs, w.BeginRowGroup())
+			}
+			for k := len(rgs) - 1; k >= 0; k-- {
+				if bounds[k] == bounds[k+1] {
+					continue
+				}
+				if _, err := rgs[k].WriteRows(c07MakeRows(cs, bounds[k], bounds[k+1])); err != nil {
+					return fail(err)
+				}
+			}
+			for k, rg := range rgs {
+				if bounds[k] == bounds[k+1] {
+					continue
+				}
+				if _, err := rg.Commit(); err != nil {
+					return fail(err)
+				}
 			}
 		case "file", "multi", "merge", "copyrows", "readfrom":
 			sf, err := cs.sourceFile(lo, hi, parts)
